@@ -175,9 +175,10 @@ def decide_rule(ctx, crate, crs, tag):
         if not av:
             continue
         ccs = q.conds(cb, crs)
-        for i, j, s in cb.assigns():
+        import c07
+        for i, s in c07.proposal_aggs(cb):
             r = s["r"]
-            if r["k"] == "agg" and r.get("ak") == "tuple" and len(r["ops"]) == 4:
+            if True:
                 d0, _ = q.origin_thru(cb, r["ops"][0], transparent=set())
                 if d0["k"] == "arg" and d0["l"] == 3 or d0["k"] in ("multi",):
                     # new first candidate: must be under the None edge
